@@ -82,7 +82,7 @@ var vrfSizes = []int{400, 700, 1100}
 // maxkb KiB (0: none). After every operation the store must list exactly what the reference model
 // keeps: cap evicts the oldest of the mailbox, the size limit evicts oldest-first across the store
 // until the total fits, and a new message that fits is retrievable at once.
-func VerifC08Limits(k int, mcap int, maxkb int) {
+func VerifC08Limits(k int, mcap int, maxkb int, pre int) {
 	cfg := config.Storage{MailboxMsgCap: mcap}
 	if maxkb > 0 {
 		cfg.Params = map[string]string{"maxkb": string(rune('0' + maxkb))}
@@ -99,6 +99,20 @@ func VerifC08Limits(k int, mcap int, maxkb int) {
 	ref := &vrfLimRef{}
 	issued := map[string]int{}
 	enf := 0 // interactions with the size enforcer so far (keeps paths with different enforcer histories apart)
+	// concrete prelude: `pre` small messages in the first mailbox (a mailbox that is already in use
+	// when the symbolic operations start)
+	for i := 0; i < pre; i++ {
+		id, aerr := st.AddMessage(&vrfIn{mailbox: names[0], subject: "p", src: vrf.ZeroBytes(100)})
+		vrf.Assert("add-noerr", aerr == nil)
+		issued[names[0]]++
+		ref.all = append(ref.all, vrfLimMsg{box: names[0], id: id, size: 100})
+		if mcap > 0 {
+			for len(ref.box(names[0])) > mcap {
+				old := ref.box(names[0])[0]
+				ref.drop(old.box, old.id)
+			}
+		}
+	}
 	for step := 1; step <= k; step++ {
 		sfx := string(rune('0' + step))
 		before := len(ref.all)
@@ -131,11 +145,15 @@ func VerifC08Limits(k int, mcap int, maxkb int) {
 			if fits {
 				vrf.Assert("fitting-message-retrievable", gerr == nil && got != nil)
 			}
-		case 2: // remove the oldest live message of the mailbox (if any)
+		case 2: // remove the oldest or the second-oldest live message of the mailbox (if any)
 			l := ref.box(box)
 			if len(l) > 0 {
-				vrf.Assert("remove-ok", st.RemoveMessage(box, l[0].id) == nil)
-				ref.drop(box, l[0].id)
+				pick := vrf.Fork(vrf.Choose("pick"+sfx, 2))
+				if pick >= len(l) {
+					pick = len(l) - 1
+				}
+				vrf.Assert("remove-ok", st.RemoveMessage(box, l[pick].id) == nil)
+				ref.drop(box, l[pick].id)
 			}
 		case 3: // purge
 			vrf.Assert("purge-ok", st.PurgeMessages(box) == nil)
